@@ -1,5 +1,5 @@
 (* Properties/C03.v — priorities: the highest-priority writer wins, the latest among equals; metadata is combined. *)
-From AY Require Import Model.Merge Proofs.Prio Proofs.FactsOk.
+From AY Require Import Model.Merge Proofs.Prio Proofs.FactsOk Model.Loader Proofs.PrioBelow.
 
 (* the order of the three priority constants is what the documentation says: !force > untagged > !weak *)
 Theorem C03_constants : (Facts.prio_weak <? Facts.prio_standard)%Z = true /\ (Facts.prio_standard <? Facts.prio_force)%Z = true
@@ -43,6 +43,22 @@ Theorem C03_metadata : forall (w0 : node) (ws : list node) (x : Z),
   In x (mkeys (f_meta (nflags w0))) \/ exists w, In w ws /\ In x (mkeys (f_meta (nflags w))).
 Proof. exact (fun w0 ws x => lfold_meta_keys ws w0 x). Qed.
 Print Assumptions C03_metadata.
+
+(* a priority tag on a container applies to everything below it: in the tree the loader builds for a document, every node
+   below a node whose effective tag priority is p (its own !force / !weak / !metadata{{priority}} tag, or one inherited from
+   above) has priority p - at any depth, in mappings and lists, whatever priority tags are written on the nodes below *)
+Theorem C03_container_priority_applies_below : forall y c inh kw p pre q m,
+  (match y with YS t _ | YM t _ | YQ t _ => inh_prio inh t end) = Some p ->
+  In (q, m) (nwp pre (load c inh kw y)) -> priority (nflags m) = p.
+Proof. exact container_priority_applies_below. Qed.
+Print Assumptions C03_container_priority_applies_below.
+
+Example C03_container_example :
+  let F := mkT (Some 1) None None None [] in
+  let W := mkT (Some (-1)) None None None [] in
+  let y := YM T0 [(KS 1, YM F [(KS 2, YQ W [YS T0 (SInt 1); YM W [(KS 3, YS W (SInt 2))]])])] in
+  map (fun pn => priority (nflags (snd pn))) (nwp [] (load_doc (mkLC (Some true) 1) y)) = [0; 1; 1; 1; 1; 1].
+Proof. vm_compute. reflexivity. Qed.
 
 (* non-vacuity: weak, force, normal, force, weak writers of one path *)
 Example C03_example :
